@@ -44,7 +44,15 @@ Reindexed == { "face_edge", "edge_face", "node_face", "face_face", "holes" }
 \*                   including the side tables (inverse_indices, fill_value_mask) of the SOURCE's construction
 \* holesCarried    : hole_edge_indices of the source is copied to the result unsliced
 Mech_intended == [ keepHelperAttrs |-> FALSE, holesCarried |-> FALSE ]
-Mech_observed == [ keepHelperAttrs |-> TRUE,  holesCarried |-> TRUE  ]
+\* the code as it is now (after fix commits 8ad0ac60 and 7638a0fd): revised whenever a fix lands
+Mech_observed == [ keepHelperAttrs |-> FALSE, holesCarried |-> FALSE ]
+\* the code as first read (before those commits); TLC must keep refuting these variants
+Mech_prefix   == [ keepHelperAttrs |-> TRUE,  holesCarried |-> TRUE  ]
+MechNamed(n) == CASE n = "intended"     -> Mech_intended
+                  [] n = "observed"     -> Mech_observed
+                  [] n = "prefix"       -> Mech_prefix
+                  [] n = "rev_8ad0ac60" -> [ Mech_observed EXCEPT !.keepHelperAttrs = TRUE ]   \* side tables copied again
+                  [] n = "rev_7638a0fd" -> [ Mech_observed EXCEPT !.holesCarried = TRUE ]      \* hole list carried again
 
 Shapes == { "proper", "perm", "identity" }     \* proper subset / all faces in another order / all faces in order
 \* side tables on the result's edge table right after slicing
